@@ -5,7 +5,8 @@ SPEC = dict(
     gen_areas=["Analysis"],
     corr_targets=["Analysis/AnalysisCorr.vo"],
     level_rule=("cases: (a) exactly modelled components (character/letter/whitespace/single tokenizers; length, truncate, stop, "
-                "unique, keyword, lowercase, n-gram, edge n-gram, reverse, apostrophe, elision, shingle filters over their parameter "
+                "unique, keyword, lowercase, n-gram, edge n-gram, reverse, apostrophe, elision, shingle, camel-case, dictionary-compound, "
+                "CJK bigram, CJK width, English possessive filters and the ASCII-folding and ZWNJ char filters over their parameter "
                 "ranges; the simple and keyword analyzers; analysis.TokenFrequency; Document.Analyze) — the observed output is "
                 "recomputed by the Coq model (rune classes, unicode.ToLower, TokenMap lookups tabulated per case); (b) every one of "
                 "the 24 bundled analyzers run stage by stage, every other bundled tokenizer / token filter / char filter called "
@@ -20,10 +21,11 @@ SPEC = dict(
                 "language package's rule code (read from the Go source at run time) through each stemmer/normaliser filter, the words "
                 "up to 5 letters through the bundled analyzer, plus mutations of the words of the package's test tables and stop-word "
                 "list (~5.5 million direct calls per run: no panic, offsets/increments, determinism on a sample)."),
-    trust=["unicode tables (IsLetter, IsSpace, ToLower, Mn/Me/Mc) and TokenMap contents are parameters of the model, tabulated by the "
+    trust=["the goextract section that turns the switch of foldToASCII and the kana tables of cjk_width.go into Coq lists",
+           "unicode tables (IsLetter, IsSpace, IsLower, IsUpper, IsNumber, ToLower, Mn/Me/Mc) and TokenMap contents are parameters of the model, tabulated by the "
            "harness per case", "Base/UTF8.v models unicode/utf8 (Go standard library)"],
     assumptions=["components that are not modelled exactly (unicode/web/regexp/exception tokenizers, snowball and light stemmers, "
-                 "language normalisers, CJK bigram/width, camel case, dictionary compound, unicode normalise, char filters) meet "
+                 "language normalisers, unicode normalise, html/regexp char filters) meet "
                  "the contract on the generated inputs only (checked, not proved)",
                  "token offsets and position sums stay far below 2^63 (no integer wrap modelled)",
                  "tokens of one stream own disjoint regions of the analysed buffer (true of every bundled tokenizer)"],
@@ -33,7 +35,7 @@ SPEC = dict(
 
 META = dict(
     text=("Coq theorems over executable models of analysis/type.go, freq.go, the character and single-token tokenizers and twelve "
-          "token filters: contracts compose along any pipeline, the modelled components are total and keep offsets within the text "
+          "token filters (later extended by camel case, dictionary compound, CJK bigram/width, possessive, ASCII folding, ZWNJ — the code repaired by the fix commits is inside the model): contracts compose along any pipeline, the modelled components are total and keep offsets within the text "
           "the tokenizer saw and increments non-negative on every byte string, TokenFrequency records running-sum positions, and "
           "a text's own analysis always matches it. The models are tied to the code on every run by vm_compute on observed "
           "outputs; all 24 bundled analyzers and every other component are run stage by stage through the verified contract "
